@@ -4,9 +4,9 @@
 # passes without), then runs the registered check against it in /repo and restores /repo.
 export GOFLAGS=-mod=mod GOPROXY=off GOSUMDB=off GOTOOLCHAIN=local
 P=$1; K=$2; DDIR=${3:-.}; shift 3
-SRC=/tmp/wt-$P/_out
+SRC=/tmp/${ROUND:-wt}-$P/_out
 WT=/tmp/vt-$P-$K
-ID=$P-m$K
+ID=$P-${TAG:-m}$K
 OUT=/verif/seeded/$ID
 rm -rf $OUT; mkdir -p $OUT
 git -C /repo worktree remove --force $WT 2>/dev/null
